@@ -316,6 +316,8 @@ var xLeaves = []xLeaf{
 	{src: "f0", val: 0.0}, {src: "fneg", val: -2.5}, {src: "nope", unknown: true}, {src: `"a.*"`, val: "a.*"}, {src: `"("`, val: "("},
 	// patterns whose only regular-expression syntax is a backslash escape, and subjects for them
 	{src: `"a1"`, val: "a1"}, {src: `"foo bar"`, val: "foo bar"}, {src: `"\d"`, val: `\d`}, {src: `"^\w\d$"`, val: `^\w\d$`}, {src: `"\bbar"`, val: `\bbar`}, {src: `"\x61"`, val: `\x61`},
+	// integers that arrive as int64 (database ids, time values) are integers like any other
+	{src: "i64a", val: 5}, {src: "i64b", val: 3},
 	{src: "fbig", val: 1.5e21}, {src: "fsmall", val: 0.00001}, {src: "1000000.0", val: 1000000.0}, {src: "fmil", val: 2.5e6},
 }
 
@@ -330,6 +332,8 @@ func c06Ctx(env *c06Env) *plush.Context {
 	ctx.Set("neg", -7)
 	ctx.Set("m1", -1)
 	ctx.Set("maxi", math.MaxInt)
+	ctx.Set("i64a", int64(5))
+	ctx.Set("i64b", int64(3))
 	ctx.Set("f0", 0.0)
 	ctx.Set("fneg", -2.5)
 	ctx.Set("fbig", 1.5e21)
@@ -600,7 +604,7 @@ func init() {
 	core.Register(&core.Prop{
 		ID:         "C06",
 		Level:      "exploration",
-		Rule:       "expression trees over int/float/string/bool/nil literals and variables, an unknown identifier, with + - * / < <= > >= == != ~= && || !; depth 1 exhaustive over 34 leaves (incl. ! placements), depth 2 both shapes over a 12-leaf pool (exhaustive in thorough, 1/10 in quick), random to depth 5. Each tree is printed with minimal, random-redundant and full parentheses, every leaf wrapped in a recording helper; the engine's value, error status and evaluation trace are compared with a reference evaluator of the documented semantics, and the three printings with each other. Non-trivial = judged (not abstained) tree, counted by the hash of its minimal printing.",
+		Rule:       "expression trees over int/float/string/bool/nil literals and variables, an unknown identifier, with + - * / < <= > >= == != ~= && || !; depth 1 exhaustive over 36 leaves (incl. ! placements), depth 2 both shapes over a 12-leaf pool (exhaustive in thorough, 1/10 in quick), random to depth 5. Each tree is printed with minimal, random-redundant and full parentheses, every leaf wrapped in a recording helper; the engine's value, error status and evaluation trace are compared with a reference evaluator of the documented semantics, and the three printings with each other. Non-trivial = judged (not abstained) tree, counted by the hash of its minimal printing.",
 		Assume:     []string{"abstentions (not judged): string compared with a non-string, bool on the left of == != + with a non-bool right, bool + bool, string + nil", "the reference evaluator encodes the property text: int x int, float x float, string x string, bool x bool (== !=), nil (== !=), string + x; everything else is a type mismatch"},
 		Batches:    batchesQT(16, 64),
 		Run:        c06Run,
